@@ -991,8 +991,8 @@ def r7_whole_file_hash(ctx):
                   f"loop continues while data were read ({t[:40]})",
                   "the read loop of hash_file does not depend on the data "
                   "read")
-    reads = [c for c in ast.walk(fn) if isinstance(c, ast.Call)
-             and isinstance(c.func, ast.Attribute) and c.func.attr == "read"]
+    reads = [c for c in ast.walk(fn) if isinstance(c, ast.Attribute)
+             and c.attr == "read"]
     ctx.floor("read calls in hash_file", len(reads), 1)
     upd = [c for c in ast.walk(lp) if isinstance(c, ast.Call) and isinstance(
         c.func, ast.Attribute) and c.func.attr == "update"]
